@@ -222,7 +222,50 @@ func errorDiscipline(f *ssa.Function, relevant func(ssa.Instruction) bool, exemp
 				}
 			}
 		}
-		// wrapped: passed to fmt.Errorf / errors.Wrap etc. and that result returned — covered by (b) since the return is non-nil
+		// (c) merged into the error being returned: passed to a function whose error result is returned / stored into
+		// the (captured) named result, or stored there directly
+		merged := false
+		for v := range al {
+			refs := v.Referrers()
+			if refs == nil {
+				continue
+			}
+			for _, r := range *refs {
+				switch y := r.(type) {
+				case *ssa.Store:
+					if y.Val == v {
+						if _, isFV := y.Addr.(*ssa.FreeVar); isFV {
+							merged = true // *err = … on the enclosing function's named result
+						}
+					}
+				case *ssa.Call:
+					if isErrorType(y.Type()) {
+						for _, a := range y.Call.Args {
+							if a == v {
+								// the combined error must itself go somewhere
+								if yr := y.Referrers(); yr != nil {
+									for _, u2 := range *yr {
+										switch z := u2.(type) {
+										case *ssa.Return:
+											merged = true
+										case *ssa.Store:
+											if z.Val == ssa.Value(y) {
+												merged = true
+											}
+										}
+									}
+								}
+							}
+						}
+					}
+				}
+			}
+		}
+		switch {
+		case problem == "" && !tested && !returned && merged:
+			out = append(out, errSite{Call: i, How: "merged into the error being returned (helper / named result)"})
+			return
+		}
 		switch {
 		case problem != "":
 			out = append(out, errSite{Call: i, Problem: problem, Trace: trace})
@@ -334,3 +377,30 @@ func litOf(v ssa.Value) (*ssa.Alloc, *factSub) {
 
 // pathIn: access path of v (a value of the literal's frame) translated by sub into the caller's frame.
 func pathIn(sub *factSub, v ssa.Value) string { return trimAddr(sub.apply(accessPath(v))) }
+
+// holdsOnAllEntries: cond holds for the facts known at b, or — when b is a join of several branches (a disjunction such
+// as `!ok || a < b`) — for the facts of every incoming edge.
+func holdsOnAllEntries(b *ssa.BasicBlock, cond func([]Fact) bool) bool {
+	if cond(factsAt(b)) {
+		return true
+	}
+	if len(b.Preds) < 2 {
+		return false
+	}
+	for _, p := range b.Preds {
+		facts := append(append([]Fact{}, factsAt(p)...), edgeFacts(p, b)...)
+		if !cond(facts) {
+			// a pass-through block (e.g. an empty else) inherits its own single predecessor's edge
+			if len(p.Preds) == 1 && len(p.Instrs) <= 1 {
+				pp := p.Preds[0]
+				facts = append(facts, edgeFacts(pp, p)...)
+				facts = append(facts, factsAt(pp)...)
+				if cond(facts) {
+					continue
+				}
+			}
+			return false
+		}
+	}
+	return true
+}
